@@ -1,10 +1,54 @@
 (** C11 — Textual path formats round-trip and parsers never panic.
     Property theorems only; each is closed by [exact] of a lemma proved elsewhere. *)
 From Coq Require Import ZArith QArith List Bool.
-From CV Require Import Formats.Decimal.
+From CV Require Import PathEnc.Enc Formats.Decimal Formats.SvgPath Formats.SvgPathProofs Formats.BezierProofs
+     Formats.Geo Formats.SvgSem Formats.MinifyProofs.
 Import ListNotations.
 
-(** the numeral reader never reports a length beyond its input (the fact ParseSVGPath's index arithmetic rests on) *)
+(** parse_total: the faithful model of ParseSVGPath (both the pinned and the repaired variant) returns Ok, Err or
+    Panic for EVERY byte string within fuel len+1 — every loop iteration consumes at least one byte or
+    returns, so the Go loop terminates ("never loops"). [orc_ok]: the stored arc fields supplied to the
+    relational ArcTo are valid (checked per case by the judge). *)
+Theorem C11_parse_total : forall v d orc, orc_ok orc -> parse v d orc <> PFuel.
+Proof. exact parse_total. Qed.
+Print Assumptions C11_parse_total.
+
+(** parse_no_panic: the repaired ParseSVGPath never indexes or slices out of range, for EVERY byte string. *)
+Theorem C11_parse_no_panic : forall d orc, orc_ok orc -> parse PFixed d orc <> PPanic.
+Proof. exact parse_no_panic. Qed.
+Print Assumptions C11_parse_no_panic.
+
+(** ... the parser of the pinned commit does: white space only ("   ": index 3 of 3). *)
+Theorem C11_parse_no_panic_orig_refuted : exists d, parse POrig d [] = PPanic.
+Proof. exact parse_no_panic_orig_refuted. Qed.
+Print Assumptions C11_parse_no_panic_orig_refuted.
+
+(** the numeral reader (model of tdewolff/parse strconv.ParseFloat) never reports a length beyond its input:
+    the fact the parser's index arithmetic rests on. *)
 Theorem C11_parse_float_len : forall b, (pf_len (parse_float b) <= length b)%nat.
 Proof. exact parse_float_len. Qed.
 Print Assumptions C11_parse_float_len.
+
+(** quad_to_cubic_exact: the cubic that ToPDF / ToPS emit for a quadratic segment is the same curve for all t. *)
+Theorem C11_quad_to_cubic_exact : forall p0 p1 p2 t,
+  (cube_at p0 (interp p0 p1 (2#3)) (interp p2 p1 (2#3)) p2 t == quad_at p0 p1 p2 t)%Q.
+Proof. exact quad_to_cubic_exact. Qed.
+Print Assumptions C11_quad_to_cubic_exact.
+
+(** minified_forms_denote_partial: ToSVG's H/V shorthand denotes the same line, and an arc printed with swapped
+    radii and rot-90 lies on the same conic (relational in the angle). Missing: the full statement
+    "svg_path_sem (ToSVG-model p) = geometry of p" for a model printer (checked per case on the real output). *)
+Theorem C11_H_denotes_line_partial : forall x st,
+  option_map fst (sem_cmd 72%Z [x] st) = option_map fst (sem_cmd 76%Z [x; snd (ss_cur st)] st).
+Proof. exact H_denotes_line. Qed.
+Print Assumptions C11_H_denotes_line_partial.
+
+Theorem C11_V_denotes_line_partial : forall y st,
+  option_map fst (sem_cmd 86%Z [y] st) = option_map fst (sem_cmd 76%Z [fst (ss_cur st); y] st).
+Proof. exact V_denotes_line. Qed.
+Print Assumptions C11_V_denotes_line_partial.
+
+Theorem C11_arc_swap_same_conic_partial : forall rx ry c s dx dy, ~ (rx == 0)%Q -> ~ (ry == 0)%Q ->
+  (conic ry rx s (- c) dx dy == conic rx ry c s dx dy)%Q.
+Proof. exact arc_swap_same_conic. Qed.
+Print Assumptions C11_arc_swap_same_conic_partial.
